@@ -1,6 +1,6 @@
 SPECIFICATION Spec
 CONSTANTS
-  Dests = {"A","B","D"}
+  Dests = {"A","D"}
   Sizes = {200}
   EventMax = 1000000
   BodyMax = 5000000
